@@ -9,7 +9,6 @@
 mod boundary;
 pub(crate) mod dims;
 pub(crate) mod dotmodel;
-mod finalize;
 
 use crate::voronoi::Dimensionality;
 use glam::DVec3;
